@@ -48,7 +48,8 @@ class NormalDataset:
 
         # Similarly, we rewrite P(X < 0) = 1 - fpr as
         #     P((X - mu) / si < -mu / si) = 1 - fpr
-        mu_neg = -scipy.stats.norm.ppf(1 - fpr) * sigma_neg
+        # isf(fpr) is ppf(1 - fpr) without the rounding of 1 - fpr for small fpr.
+        mu_neg = -scipy.stats.norm.isf(fpr) * sigma_neg
         nb_neg = int(fpr_support / fpr)
 
         n = nb_pos + nb_neg
